@@ -282,6 +282,14 @@ def r9_4(prog, rep):
     rets = [n for n in walk_local(lv.node) if isinstance(n, ast.Return)] if lv else []
     obl(rep, lv, lv.node, "R9.4", len(rets) == 1 and unparse(rets[0].value) == f"{lv.params[1]}.name",
         "visitLazyVariable returns the variable's name")
+    lval = ext.methods.get("visitLazyValue")
+    rets = [n for n in walk_local(lval.node) if isinstance(n, ast.Return)] if lval else []
+    ok = len(rets) == 1 and isinstance(rets[0].value, (ast.Constant, ast.List)) and (not isinstance(rets[0].value, ast.List) or not rets[0].value.elts) \
+        and (not isinstance(rets[0].value, ast.Constant) or rets[0].value.value in ("", None))
+    obl(rep, lval, lval.node if lval else ext.node, "R9.4", ok, "visitLazyValue contributes no variable name (a literal is not a column)",
+        unparse(rets[0].value) if rets else "",
+        f"visitLazyValue returns `{unparse(rets[0].value) if rets else None}`: a string literal in a call (e.g. binary(g, 'c')) is counted as a used "
+        "variable, so an unrelated column of that name enters the missing-value filter")
     # results of visitLazyCall: both lists are returned
     vc = ext.methods["visitLazyCall"]
     rets = [n for n in walk_local(vc.node) if isinstance(n, ast.Return)]
